@@ -530,10 +530,17 @@ impl<F: Read + Seek> CompoundFile<F> {
         // may instead instead be incorrectly zero padded (see
         // https://github.com/mdsteele/rust-cfb/issues/41).
         // In case num_fat_sectors is not reliable, only remove zeroes,
-        // and don't remove sectors from the header DIFAT.
+        // and don't remove sectors from the header DIFAT.  If
+        // num_fat_sectors is too large, it mustn't keep us from removing
+        // the zeroes either, so also go by the number of FAT sectors that a
+        // file of this size can have at most.
         if !validation.is_strict() {
+            let max_fat_sectors =
+                (num_sectors as usize).div_ceil(sector_len / size_of::<u32>());
+            let num_fat_sectors =
+                (header.num_fat_sectors as usize).min(max_fat_sectors);
             while difat.len() > consts::NUM_DIFAT_ENTRIES_IN_HEADER
-                && difat.len() > header.num_fat_sectors as usize
+                && difat.len() > num_fat_sectors
                 && difat.last() == Some(&0)
             {
                 difat.pop();
